@@ -150,4 +150,139 @@ theorem flush_loop (M : Nat) (rest : List Modfile.Comment) : ∀ (pre : List Mod
       rw [hne] at this
       simpa [Printer.flushComments] using this
 
+/-! ### newline -/
+
+/-- the part of `newline` after the pending comments -/
+def nlTail (mp : Printer) : Printer :=
+  let p := mp.trim
+  let p := match p.bufRev with
+    | [] => p
+    | 10 :: 10 :: _ => p
+    | _ => p.writeByte 10
+  p.tabs
+
+theorem newline_eq (mp : Printer) : mp.newline = nlTail (if mp.comment.isEmpty then mp else
+    { (Printer.flushComments (mp.writeByte 32) mp.comment true) with comment := [] }) := rfl
+
+theorem newline_nocomment_sim (mp : Printer) (fuel : Nat) (hc : mp.comment = [])
+    (hf : mp.bufRev.length + 1 ≤ fuel) (hm : mp.margin + 1 ≤ fuel) :
+    printer_newline fuel (emb mp) = .ok ((), emb (nlTail mp)) := by
+  unfold printer_newline
+  have h0 : decide (len (emb mp).comment > 0) = false := by simp [hc]
+  simp only [h0, Bool.false_eq_true, if_false]
+  rw [trim_sim mp fuel hf]
+  simp only [bind_ok, nlTail]
+  have hm' : mp.trim.margin + 1 ≤ fuel := hm
+  generalize mp.trim = q at hm'
+  rcases hb : q.bufRev with _ | ⟨c, _ | ⟨d, R⟩⟩
+  · simp only [emb_Buffer, hb]
+    simp [newline_loop1_sim q fuel hm']
+  · have hl0 : decide (len [c].reverse = 0) = false := by simp [len_eq]
+    have hl2 : decide (len [c].reverse ≥ 2) = false := by simp [len_eq]
+    simp only [emb_Buffer, hb, hl0, hl2, Bool.false_eq_true, if_false, pure_eq_ok, bind_ok]
+    have e1 : ({ Buffer := [c].reverse ++ [10], comment := (emb q).comment, margin := (emb q).margin } : printer)
+        = emb (q.writeByte 10) := by
+      simp [emb, Printer.writeByte, hb]
+    rw [e1, newline_loop1_sim _ fuel (by simpa using hm')]
+    simp
+  · have hl0 : decide (len (c :: d :: R).reverse = 0) = false := by simp [len_eq]; omega
+    have hl2 : decide (len (c :: d :: R).reverse ≥ 2) = true := by simp [len_eq]; omega
+    simp only [emb_Buffer, hb, hl0, hl2, Bool.false_eq_true, if_false, if_true, pure_eq_ok, bind_ok, idx_last, idx_last2]
+    have e10c : decide (((c.toNat : Nat) : Int) = 10) = (c == 10) := decide_byte_eq c 10 (by omega)
+    have e10d : decide (((d.toNat : Nat) : Int) = 10) = (d == 10) := decide_byte_eq d 10 (by omega)
+    have e1 : ({ Buffer := (c :: d :: R).reverse ++ [10], comment := (emb q).comment, margin := (emb q).margin } : printer)
+        = emb (q.writeByte 10) := by
+      simp [emb, Printer.writeByte, hb]
+    rw [e10c, e1]
+    by_cases hc10 : c = 10
+    · subst hc10
+      simp only [beq_self_eq_true, if_true, idx_last2, bind_ok, e10d, pure_eq_ok]
+      by_cases hd10 : d = 10
+      · subst hd10
+        simp [newline_loop1_sim q fuel hm']
+      · have : (d == 10) = false := by simp [hd10]
+        simp only [this, Bool.false_eq_true, if_false]
+        rw [newline_loop1_sim _ fuel (by simpa using hm')]
+        simp [hd10]
+    · have : (c == 10) = false := by simp [hc10]
+      simp only [this, Bool.false_eq_true, if_false, pure_eq_ok, bind_ok]
+      rw [newline_loop1_sim _ fuel (by simpa using hm')]
+      simp [hc10]
+
+theorem newline_unfold (fuel : Nat) (p : printer) (h : p.comment ≠ []) :
+    printer_newline fuel p = (do
+      let r ← printer_newline_loop2 p.comment fuel 0 { p with Buffer := p.Buffer ++ [32] }
+      printer_newline fuel { r.2 with comment := [] }) := by
+  have h0 : decide (len p.comment > 0) = true := by
+    cases hp : p.comment with
+    | nil => exact absurd hp h
+    | cons a l => simp [len_eq]
+  have h1 : decide (len ([] : List Generated.Print.Comment) > 0) = false := by simp
+  unfold printer_newline
+  simp only [h0, if_true, h1, Bool.false_eq_true, if_false, sliceTo_zero, bind_ok]
+
+@[simp] theorem nlTail_margin (mp : Printer) : (nlTail mp).margin = mp.margin := by
+  unfold nlTail; simp only []; split <;> rfl
+
+@[simp] theorem nlTail_comment (mp : Printer) : (nlTail mp).comment = mp.comment := by
+  unfold nlTail; simp only []; split <;> rfl
+
+theorem nlTail_length (mp : Printer) : (nlTail mp).bufRev.length ≤ mp.bufRev.length + 1 + mp.margin := by
+  have := trim_length mp
+  unfold nlTail; simp only []
+  split <;> simp only [tabs_length, writeByte_length, tabs_margin, writeByte_margin, trim_margin] <;> omega
+
+@[simp] theorem newline_margin (mp : Printer) : mp.newline.margin = mp.margin := by
+  rw [newline_eq]; split <;> simp
+
+@[simp] theorem newline_comment (mp : Printer) : mp.newline.comment = [] := by
+  rw [newline_eq]; split
+  · rename_i h; simpa using h
+  · simp
+
+theorem newline_pot (M : Nat) (mp : Printer) (hm : mp.margin ≤ M) :
+    pot M mp.newline + 2 ≤ pot M mp + cNewline M := by
+  unfold pot cNewline
+  rw [newline_comment]
+  rw [newline_eq]
+  split
+  · have := nlTail_length mp
+    simp only [cComs]; omega
+  · have h1 := nlTail_length { (Printer.flushComments (mp.writeByte 32) mp.comment true) with comment := [] }
+    have h2 := flush_length M mp.comment (mp.writeByte 32) true (by simpa using hm)
+    simp only [flush_margin, writeByte_margin, writeByte_length] at h1 h2
+    simp only [cComs, flush_margin, writeByte_margin]; omega
+
+theorem newline_sim (M : Nat) (mp : Printer) (fuel : Nat) (hm : mp.margin ≤ M) (hf : pot M mp + cNewline M ≤ fuel) :
+    printer_newline fuel (emb mp) = .ok ((), emb mp.newline) := by
+  unfold pot cNewline at hf
+  rw [newline_eq]
+  cases hc : mp.comment with
+  | nil =>
+    simp only [List.isEmpty_nil, if_true]
+    exact newline_nocomment_sim mp fuel hc (by omega) (by omega)
+  | cons c cs =>
+    have hne : (emb mp).comment ≠ [] := by simp [hc]
+    rw [newline_unfold fuel (emb mp) hne]
+    have e1 : ({ Buffer := (emb mp).Buffer ++ [32], comment := (emb mp).comment, margin := (emb mp).margin } : printer)
+        = emb (mp.writeByte 32) := by
+      simp [emb, Printer.writeByte]
+    obtain ⟨r, hr⟩ := flush_loop M (c :: cs) [] fuel (mp.writeByte 32) (by simpa using hm)
+      (by rw [hc] at hf; simp only [writeByte_length]; omega)
+    simp only [List.nil_append, List.length_nil, decide_true] at hr
+    have z : ((0 : Nat) : Int) = (0 : Int) := rfl
+    rw [z] at hr
+    rw [e1]
+    simp only [emb_comment]
+    rw [← hc] at hr
+    rw [hr]
+    simp only [bind_ok]
+    have h2 := flush_length M mp.comment (mp.writeByte 32) true (by simpa using hm)
+    simp only [writeByte_length] at h2
+    have e2 : ({ Buffer := (emb ((mp.writeByte 32).flushComments mp.comment true)).Buffer, comment := [],
+                 margin := (emb ((mp.writeByte 32).flushComments mp.comment true)).margin } : printer)
+        = emb { ((mp.writeByte 32).flushComments mp.comment true) with comment := [] } := rfl
+    rw [e2, newline_nocomment_sim _ fuel rfl (by simp only []; omega) (by simp; omega)]
+    simp [hc]
+
 end ModVerif.TieFnPrint
